@@ -546,15 +546,15 @@ func mkvsReplay(args []string) int {
 		defer rec.w.Close()
 	}
 	var (
-		mu                 sync.Mutex
-		nBeh, nRuns, nOps  int
-		classes            = map[string]int{}
-		mism               []*mkMismatch
-		samples            []json.RawMessage
-		opCounts           = map[string]int{}
-		bad                atomic.Bool
-		byConfig           = map[string]int{}
-		distinctContents   = map[string]bool{}
+		mu                sync.Mutex
+		nBeh, nRuns, nOps int
+		classes           = map[string]int{}
+		mism              []*mkMismatch
+		samples           []json.RawMessage
+		opCounts          = map[string]int{}
+		bad               atomic.Bool
+		byConfig          = map[string]int{}
+		distinctContents  = map[string]bool{}
 	)
 	lines := make(chan []byte, 256)
 	var wg sync.WaitGroup
